@@ -16,7 +16,13 @@ Check(e) ==
     [] e.op = "RT" ->
         LET M == Msgs[MsgByName(e.m)]  m == [mand |-> e.mand, opt |-> e.opt] IN
         IF e.panic \/ ~e.encok THEN "encode-fails"
-        ELSE IF e.bytes = Encode(M, m) THEN "ok" ELSE "encoded-octets-differ"
+        ELSE IF e.bytes # Encode(M, m) THEN "encoded-octets-differ"
+        \* the produced octets are an input inside the grammar: the real decoder must accept them and yield the field values
+        \* the table-driven decoder yields - which are those of m (Decode(Encode(m)) = m is checked in stage A)
+        ELSE IF ~WellFormed(M, m) THEN "ok"
+        ELSE IF ~e.decok THEN "rejects-inside-grammar"
+        ELSE IF e.d.msg # e.m \/ ~MsgEq(m, e.d, M) THEN "field-values-differ"
+        ELSE "ok"
     [] OTHER -> "ok"
 Init == l = 1 /\ TLCSet(2, 0)
 Next == /\ l <= Len(TraceLog)
